@@ -40,11 +40,21 @@ pub fn remove_protection_of_long_packet(
         return Ok(None);
     }
 
-    let specific_bits = LongSpecificBits::from(*first_byte);
-    let pn_len = specific_bits.pn_len()?;
+    // The reserved bits are only meaningful once the packet has been authenticated,
+    // see [`check_reserved_bits_of_long_packet`].
+    let pn_len = (*first_byte & LongSpecificBits::PN_LEN_MASK) + 1;
     let (_, undecoded_pn) = take_pn_len(pn_len)(max_pn_buf).unwrap();
 
     Ok(Some(undecoded_pn))
+}
+
+/// Checks the reserved bits of a long packet whose packet protection has been removed
+/// successfully, i.e. which is known to come from the peer.
+///
+/// Judging them any earlier would let anyone who can inject or corrupt a single datagram
+/// close the connection with a PROTOCOL_VIOLATION error.
+pub fn check_reserved_bits_of_long_packet(pkt_buf: &[u8]) -> Result<(), Error> {
+    LongSpecificBits::from(pkt_buf[0]).pn_len().map(|_| ())
 }
 
 /// Removes the header protection of the short packet.
@@ -82,11 +92,19 @@ pub fn remove_protection_of_short_packet(
         return Ok(None);
     }
 
+    // The reserved bits are only meaningful once the packet has been authenticated,
+    // see [`check_reserved_bits_of_short_packet`].
     let clear_bits = ShortSpecificBits::from(*first_byte);
-    let pn_len = clear_bits.pn_len()?;
+    let pn_len = (*first_byte & ShortSpecificBits::PN_LEN_MASK) + 1;
     let (_, undecoded_pn) = take_pn_len(pn_len)(max_pn_buf).unwrap();
 
     Ok(Some((undecoded_pn, clear_bits.key_phase())))
+}
+
+/// Checks the reserved bits of a short packet whose packet protection has been removed
+/// successfully, see [`check_reserved_bits_of_long_packet`].
+pub fn check_reserved_bits_of_short_packet(pkt_buf: &[u8]) -> Result<(), Error> {
+    ShortSpecificBits::from(pkt_buf[0]).pn_len().map(|_| ())
 }
 
 /// Decrypt the body of a packet, applicable to both long and short packets.
